@@ -101,6 +101,7 @@ var (
 	dGS     = gdecl("GS", "var $PGS string\nfunc $PrdGS() string { return $PGS }", "$PGS = \"\"")
 	dGT     = gdecl("GT", "var $PGT $PT\nfunc $PrdGT() string { return $PGT.F }", "$PGT = $PT{}")
 	dGA     = gdecl("GA", "var $PGA [2]string\nfunc $PrdGA0() string { return $PGA[0] }\nfunc $PrdGA1() string { return $PGA[1] }", "$PGA = [2]string{}")
+	dGN     = gdecl("GN", "type $PNS struct {\n\tIn struct{ F string }\n\tTags [2]string\n}\nvar $PGN $PNS\nfunc $PrdGNin() string { return $PGN.In.F }\nfunc $PrdGNtag() string { return $PGN.Tags[0] }\nfunc $PrdGNw() $PNS { return $PGN }", "$PGN = $PNS{}")
 	dGM     = gdecl("GM", "var $PGM = map[string]string{}\nfunc $PrdGM() string { return $PGM[\"k\"] }", "$PGM = map[string]string{}")
 	dGP     = gdecl("GP", "var $PGP = new(string)\nfunc $PrdGP() string { return *$PGP }", "$PGP = new(string)")
 	dGSL    = gdecl("GSL", "var $PGSL = make([]string, 2)\nfunc $PrdGSL() string { return $PGSL[0] }", "$PGSL = make([]string, 2)")
@@ -250,6 +251,9 @@ var Steps = []Step{
 	st("g.scH", "S", "S", "$PGS = $x\n$y = $PrdGS()", dGS),
 	st("g.fld", "S", "S", "$PGT.F = $x\n$y = $PGT.F", dT, dGT),
 	st("g.fldH", "S", "S", "$PGT.F = $x\n$y = $PrdGT()", dT, dGT),
+	st("g.wholeNestH", "S", "S", "var n$i $PNS\nn$i.In.F = $x\n$PGN = n$i\n$y = $PrdGNin()", dGN),
+	st("g.wholeTagH", "S", "S", "var n$i $PNS\nn$i.Tags[0] = $x\n$PGN = n$i\n$y = $PrdGNtag()", dGN),
+	st("g.wholeWholeH", "S", "S", "var n$i $PNS\nn$i.In.F = $x\n$PGN = n$i\nw$i := $PrdGNw()\n$y = w$i.In.F", dGN),
 	st("g.arr", "S", "S", "$PGA[0] = $x\n$y = $PGA[0]", dGA),
 	st("g.arrH", "S", "S", "$PGA[0] = $x\n$y = $PrdGA0()", dGA),
 	st("g.arrHOther", "S", "S", "$PGA[0] = $x\n$y = $PrdGA1()", dGA).drop(),
